@@ -81,6 +81,14 @@ func parseWidthFindings(c *Ctx, f *ssa.Function) (findings []widthFinding, nPars
 			if len(call.Call.Args) != 3 {
 				return
 			}
+			// the texts parsed here (database values, path parameters, struct tags) are decimal
+			if base, isConst := constInt(call.Call.Args[1]); isConst && base != 10 {
+				what := fmt.Sprintf("base %d", base)
+				if base == 0 {
+					what = "base 0 (the prefix decides: a leading 0 means octal, 0x hexadecimal)"
+				}
+				findings = append(findings, widthFinding{f, call.Pos(), fmt.Sprintf("the decimal text is parsed by %s in %s: \"010\" is read as 8 (or 16), so the number used differs from the number stored / requested", obj.Name(), what)})
+			}
 			k, isConst := constInt(call.Call.Args[2])
 			if !isConst {
 				return
@@ -294,4 +302,58 @@ func abmfWidthRules(c *Ctx, r *Report, rule string) {
 		bad, pos = fs[0].what, c.rel(fs[0].pos)
 	}
 	r.check(bad == "", rule, fnKey(m.f)+"|account looked up under the request's own identifiers", pos, "no identifier of the request is narrowed on its way into the look-up filter", bad)
+}
+
+// ---- one variable shared by the elements a loop builds
+//
+// `var x T` declared in front of a loop, assigned in every iteration, and its ADDRESS put into
+// the element the iteration builds: all elements point at the same variable and show the
+// value of the last iteration.  (Inside the loop `var x T` makes a new variable per
+// iteration, which is what the code means.)
+func loopSharedAddressFindings(c *Ctx, f *ssa.Function) []widthFinding {
+	var out []widthFinding
+	for _, b := range f.Blocks {
+		for _, ins := range b.Instrs {
+			al, ok := ins.(*ssa.Alloc)
+			if !ok || al.Referrers() == nil {
+				continue
+			}
+			avoid := map[*ssa.BasicBlock]bool{al.Block(): true}
+			inLoopOutsideDecl := func(blk *ssa.BasicBlock) bool {
+				if blk == al.Block() {
+					return false
+				}
+				for _, sc := range blk.Succs {
+					if sc == blk || reachableFrom(sc, nil, nil, avoid)[blk] {
+						return true
+					}
+				}
+				return false
+			}
+			var escapes, writes ssa.Instruction
+			for _, ref := range *al.Referrers() {
+				switch x := ref.(type) {
+				case *ssa.Store:
+					if x.Val == ssa.Value(al) && inLoopOutsideDecl(x.Block()) {
+						escapes = x
+					}
+					if x.Addr == ssa.Value(al) && inLoopOutsideDecl(x.Block()) {
+						if k, isK := x.Val.(*ssa.Const); !isK || k.Value != nil || true {
+							writes = x
+						}
+					}
+				case *ssa.FieldAddr:
+					for _, r2 := range *x.Referrers() {
+						if st, ok := r2.(*ssa.Store); ok && st.Addr == ssa.Value(x) && inLoopOutsideDecl(st.Block()) {
+							writes = st
+						}
+					}
+				}
+			}
+			if escapes != nil && writes != nil {
+				out = append(out, widthFinding{f, escapes.Pos(), fmt.Sprintf("the address of %s (declared at %s, in front of the loop) is put into what each iteration builds at %s, and the variable is assigned again in every iteration (%s): all elements share the one variable and end up showing the value of the last iteration", describe(al), c.rel(al.Pos()), c.rel(escapes.Pos()), c.rel(writes.Pos()))})
+			}
+		}
+	}
+	return out
 }
